@@ -259,6 +259,18 @@ func concScenario(spec *concSpec) *Scenario {
 					}
 					return true
 				})
+				// ... and then nothing is counted as buffered any more (a write refused because
+				// its stream was closed under it has no effect on the figures)
+				m.S.WaitIdle()
+				if drained(a) && drained(b) {
+					for _, s := range []*Stream{sa1, sa2, sb1} {
+						if s != nil {
+							if v := s.BufferedAmount(); v != 0 {
+								m.Failf("buffered.zero", "program %s: stream %d reports %d buffered bytes although nothing is pending or in flight", prog, s.streamIdentifier, v)
+							}
+						}
+					}
+				}
 			} else {
 				m.Sleep(500 * time.Millisecond)
 			}
